@@ -10,8 +10,13 @@ class Monitor(object):
     rule = ""
     assumptions = []
 
+    quick_cases = 800
+    thorough_secs = 180
+
     def budget(self, tier):
-        return dict(workers=4, cases=800) if tier == "quick" else dict(workers=16, cases=0, secs=180, timeout=1500)
+        if tier == "quick":
+            return dict(workers=4, cases=self.quick_cases)
+        return dict(workers=16, cases=0, secs=self.thorough_secs, timeout=self.thorough_secs * 6 + 600)
 
     def thresholds(self, tier):
         return {}
